@@ -138,7 +138,8 @@ class Replayer:
         if own:
             shutil.rmtree(outdir, ignore_errors=True)
         res = {"rc": rc, "out": out}
-        m = re.search(r"^REPLAY \S+ verdict=(\d) ntok=(\d+) nontrivial=(\w+) other_fail=(\w+) excluded=(\w+) sig=(.*?) msg=(.*)$", out, re.M)
+        ms = list(re.finditer(r"^REPLAY \S+ verdict=(\d) ntok=(\d+) nontrivial=(\w+) other_fail=(\w+) excluded=(\w+) sig=(.*?) msg=(.*)$", out, re.M))
+        m = ms[-1] if ms else None  # a sequence file prints one line per tape: the last one is the verdict
         if rc == "timeout":
             res["cls"] = "timeout"
         elif m and rc in (0, 1):
@@ -161,6 +162,81 @@ def read_cur_tape(path):
         return b""
     n = int.from_bytes(raw[:8], "little")
     return raw[8:8 + 8 * n]
+
+
+SEQ_MAGIC = b"VHSEQ1\n"
+
+
+def seq_pack(tapes):
+    return SEQ_MAGIC + b"".join((len(t) // 8).to_bytes(4, "little") + t[:len(t) - len(t) % 8] for t in tapes)
+
+
+def seq_unpack(raw):
+    out, i = [], len(SEQ_MAGIC)
+    while i + 4 <= len(raw):
+        n = int.from_bytes(raw[i:i + 4], "little")
+        i += 4
+        if i + 8 * n > len(raw):
+            break
+        out.append(raw[i:i + 8 * n])
+        i += 8 * n
+    return out
+
+
+def minimise_history(rp, hist_path, shrunk, cls, limit=4000):
+    """hist_path: every tape a rapidcheck worker ran up to and including its first failing one.  Returns
+    (sequence bytes, description) for the shortest history found that fails in one fresh process with the
+    same class of failure, or (None, reason).  Searches by bisection: the latest start, then the earliest end."""
+    raw = open(hist_path, "rb").read()
+    if not raw.startswith(SEQ_MAGIC):
+        return None, "no history recorded"
+    tapes = seq_unpack(raw)
+    if len(tapes) < 2:
+        return None, "and it was the first case of its process"
+    pre, last = tapes[:-1], tapes[-1]
+    if len(pre) > limit:
+        pre = pre[-limit:]
+    want = cls.split("|")[0]  # property (or crash kind): the discriminator may differ once the history is shorter
+    ntests = [0]
+
+    def fails(p, f):
+        ntests[0] += 1
+        r = rp.run_bytes(seq_pack(p + [f]), timeout=900)
+        c = r["cls"]
+        return c != "ok" and c != "timeout" and c.split("|")[0] == want
+
+    if not fails(pre, last):
+        return None, "and so does the worker's whole history of %d cases replayed in one fresh process" % len(pre)
+    lo, hi = 0, len(pre)  # pre[lo:] + last fails; pre[hi:] + last passes
+    while hi - lo > 1:
+        mid = (lo + hi) // 2
+        if fails(pre[mid:], last):
+            lo = mid
+        else:
+            hi = mid
+    keep = pre[lo:]
+    if len(keep) > 1 and fails(keep[:1], last):
+        keep = keep[:1]
+    elif len(keep) > 1:
+        a, b = 1, len(keep)  # keep[:a] + last passes; keep[:b] + last fails
+        while b - a > 1:
+            mid = (a + b) // 2
+            if fails(keep[:mid], last):
+                b = mid
+            else:
+                a = mid
+        keep = keep[:b]
+        # drop cases in the middle while the failure stays (short histories only)
+        i = 1
+        while len(keep) <= 12 and i < len(keep) - 1 and ntests[0] < 60:
+            if fails(keep[:i] + keep[i + 1:], last):
+                keep = keep[:i] + keep[i + 1:]
+            else:
+                i += 1
+    final = last
+    if shrunk and shrunk != last and fails(keep, shrunk):
+        final = shrunk
+    return seq_pack(keep + [final]), "%d earlier case(s) + the failing one, out of %d run by the worker (%d replays)" % (len(keep), len(tapes) - 1, ntests[0])
 
 
 def ddmin(data, test, tok=8):
@@ -267,6 +343,7 @@ def run_rc_workers(prop, exe, scratch, known_path, seed, ncases, rc_size, cfg, t
             continue
         if rc == 1 and st and st.get("failed") and os.path.exists(os.path.join(out, "fail.tape")):
             data = open(os.path.join(out, "fail.tape"), "rb").read()
+            st["fail"]["hist"] = os.path.join(out, "hist.seq")
             candidates.append(("rapidcheck%s:w%d" % (tag and "[" + tag.rstrip("_") + "]", i), data, "verdict:" + st["fail"]["sig"], st["fail"]))
             continue
         # abnormal end: sanitizer abort / signal.  The input is in cur.tape.
@@ -393,7 +470,23 @@ def _run_check(prop, tier, seed, t0, harness, cfg, budget, level, targets, scrat
         with ThreadPoolExecutor(max_workers=3) as ex3:
             results = list(ex3.map(lambda _: rp_c.run_bytes(data, timeout=rto), range(3)))
         kinds = set(r["cls"].split(":")[0] for r in results)
-        if any(r["cls"] == "ok" for r in results) or len(kinds) != 1:
+        if all(r["cls"] == "ok" for r in results) and isinstance(info, dict) and info.get("hist") and os.path.exists(info["hist"]):
+            # The case fails in the worker but passes in a fresh process: does it fail again after the cases the
+            # worker had run before it, in one process?  Then something in the code under test outlives a case (a
+            # `static`, a registry) and the failure is a history of several cases; the replay file is that history.
+            seq, how = minimise_history(rp_c, info["hist"], data, cls)
+            if seq is None:
+                notes.append("non-reproducible failure from %s (%s): fresh replays pass, %s" % (origin, cls, how))
+                continue
+            notes.append("failure from %s (%s) needs earlier cases in the same process: %s" % (origin, cls, how))
+            data = seq
+            results = [rp_c.run_bytes(data, timeout=900) for _ in range(2)]
+            kinds = set(r["cls"].split(":")[0] for r in results)
+            if any(r["cls"] == "ok" for r in results) or len(kinds) != 1:
+                notes.append("non-reproducible failure from %s (%s): the minimised history gave %s" % (origin, cls, [r["cls"] for r in results]))
+                continue
+            origin += " +history"
+        elif any(r["cls"] == "ok" for r in results) or len(kinds) != 1:
             notes.append("non-reproducible failure from %s (%s): replays gave %s" % (origin, cls, [r["cls"] for r in results]))
             continue
         kind = results[0]["cls"].split(":")[0]
@@ -410,7 +503,7 @@ def _run_check(prop, tier, seed, t0, harness, cfg, budget, level, targets, scrat
             violations.append({"replay": tp, "class": "hang:no-progress", "origin": origin, "msg": msg, "trace": ""})
             continue
         final_cls = results[0]["cls"]
-        if kind == "crash":
+        if kind == "crash" and not data.startswith(SEQ_MAGIC):
             # minimise by process-level delta debugging, keeping the same crash class
             want = final_cls
 
